@@ -127,7 +127,7 @@ def shard(ctx):
     # ---------------------------------------------------------------- (B) random programs
     rng = ctx.rng("c01")
     n = 330 if ctx.quick else 16000
-    o = gen.Opts(types=True, calls=False, rhs_query=False, msgs=False, some_lets=True)
+    o = gen.Opts(types=True, calls=True, rhs_query=False, msgs=False, some_lets=True)
     o.unary_w = 0.4
     for t in range(n):
         doc = gen.gen_doc(rng)
